@@ -15,7 +15,8 @@ fn profile(thorough: bool) -> Profile {
         check: 3,
         roundtrip: 8,
         add_attr: 3,
-        update: 4,
+        update: 6,
+        disable: 4,
         prune: 2,
         bad_pct: 0,
         min_ops: 1,
